@@ -6,7 +6,9 @@ use insim::{identifiers::RequestId, insim::IsiFlags, Builder, Packet};
 use crate::{common::*, net::mode_tag, wire::{encode_p, Enc}};
 
 #[derive(Clone, Debug)]
-enum Op { Tcp, Udp(Option<u16>), Relay, Mode(bool), Admin(Option<String>), Reqi(u8), Flags(u16), Flag(usize, bool), Prefix(Option<char>), Iname(Option<String>), Interval(Option<u64>) }
+enum Op { Tcp, Udp(Option<u16>), Relay, Mode(bool), Admin(Option<String>), Reqi(u8), Flags(u16), Flag(usize, bool), Prefix(Option<char>), Iname(Option<String>), Interval(Option<u64>),
+    /// a setter of an option the TCP / UDP handshake does not read: 0 relay_select_host, 1 relay_spectator_password, 2 relay_admin_password, 3 connect_timeout, 4 tcp_nodelay, 5 relay_select_host(None)
+    Other(u8) }
 
 fn tok(o: &Op) -> String {
     match o {
@@ -15,6 +17,7 @@ fn tok(o: &Op) -> String {
         Op::Reqi(r) => format!("reqi:{r}"), Op::Flags(f) => format!("flags:{f}"), Op::Flag(i, e) => format!("flag:{i}:{}", *e as u8),
         Op::Prefix(p) => format!("prefix:{}", p.map(|c| (c as u32).to_string()).unwrap_or("none".into())),
         Op::Iname(a) => format!("iname:{}", a.as_ref().map(|s| hex(s.as_bytes())).unwrap_or("none".into())),
+        Op::Other(k) => format!("other:{k}"),
         // u64::MAX stands for Duration::MAX; the model line carries 2^62 - 1 (any value >= 65536 is refused alike; the driver parses native ints)
         Op::Interval(d) => format!("interval:{}", d.map(|x| if x == u64::MAX { "4611686018427387903".to_string() } else { x.to_string() }).unwrap_or("none".into())),
     }
@@ -26,7 +29,7 @@ fn parse_tok(t: &str) -> Op {
         "tcp" => Op::Tcp, "relay" => Op::Relay, "udp" => Op::Udp(opt(p[1]).map(|x| x.parse().unwrap())), "mode" => Op::Mode(p[1] == "C"),
         "admin" => Op::Admin(opt(p[1]).map(|h| String::from_utf8(unhex(&h)).unwrap())), "reqi" => Op::Reqi(p[1].parse().unwrap()), "flags" => Op::Flags(p[1].parse().unwrap()),
         "flag" => Op::Flag(p[1].parse().unwrap(), p[2] == "1"), "prefix" => Op::Prefix(opt(p[1]).map(|x| char::from_u32(x.parse().unwrap()).unwrap())),
-        "iname" => Op::Iname(opt(p[1]).map(|h| String::from_utf8(unhex(&h)).unwrap())), _ => Op::Interval(opt(p[1]).map(|x| if x == "4611686018427387903" { u64::MAX } else { x.parse().unwrap() })),
+        "iname" => Op::Iname(opt(p[1]).map(|h| String::from_utf8(unhex(&h)).unwrap())), "other" => Op::Other(p[1].parse().unwrap()), _ => Op::Interval(opt(p[1]).map(|x| if x == "4611686018427387903" { u64::MAX } else { x.parse().unwrap() })),
     }
 }
 const REMOTE: &str = "127.0.0.1:29999";
@@ -38,6 +41,7 @@ fn apply(b: Builder, o: &Op) -> Builder {
         Op::Mode(c) => if *c { b.compressed() } else { b.uncompressed() },
         Op::Admin(a) => b.isi_admin_password(a.clone()), Op::Reqi(r) => b.isi_reqi(RequestId(*r)), Op::Flags(f) => b.isi_flags(IsiFlags::from_bits_retain(*f)),
         Op::Flag(i, e) => match i { 0 => b.isi_flag_mci(*e), 1 => b.isi_flag_local(*e), 2 => b.isi_flag_mso_cols(*e), 3 => b.isi_flag_nlp(*e), 4 => b.isi_flag_con(*e), 5 => b.isi_flag_obh(*e), 6 => b.isi_flag_hlv(*e), 7 => b.isi_flag_axm_load(*e), 8 => b.isi_flag_axm_edit(*e), _ => b.isi_flag_req_join(*e) },
+        Op::Other(k) => match k { 0 => b.relay_select_host(Some("Some Host".to_string())), 1 => b.relay_spectator_password(Some("spec".to_string())), 2 => b.relay_admin_password(Some("adm".to_string())), 3 => b.connect_timeout(Duration::from_secs(3)), 4 => b.tcp_nodelay(true), _ => b.relay_select_host(None::<String>) },
         Op::Prefix(p) => b.isi_prefix(*p), Op::Iname(n) => b.isi_iname(n.clone()), Op::Interval(d) => b.isi_interval(d.map(|x| if x == u64::MAX { Duration::MAX } else { Duration::from_millis(x) })),
     }
 }
@@ -53,6 +57,7 @@ fn want(ops: &[Op]) -> Want {
         Op::Admin(a) => w.admin = a.clone().unwrap_or_default(), Op::Reqi(r) => w.reqi = *r, Op::Flags(f) => w.flags = *f,
         Op::Flag(i, e) => if *e { w.flags |= FLAG_BITS[*i] } else { w.flags &= !FLAG_BITS[*i] },
         Op::Prefix(p) => w.prefix = p.map(|c| c as u32).unwrap_or(0), Op::Iname(n) => w.iname = n.clone().unwrap_or("insim.rs".into()), Op::Interval(d) => w.interval = d.unwrap_or(0),
+        Op::Other(_) => {},   // not an option of the handshake
     } }
     w.udpport = if udp { local.unwrap_or(0) } else { 0 };
     w
@@ -74,6 +79,7 @@ fn alphabet() -> Vec<Op> {
     let mut v = vec![Op::Tcp, Op::Udp(None), Op::Udp(Some(40000)), Op::Relay, Op::Mode(true), Op::Mode(false), Op::Admin(Some("secret".into())), Op::Admin(Some("0123456789abcdef".into())), Op::Admin(None), Op::Reqi(7), Op::Flags(0), Op::Flags(0x0ffc), Op::Flags(36),
                      Op::Prefix(Some('!')), Op::Prefix(None), Op::Iname(Some("verif".into())), Op::Iname(Some("A-16-char-name-x".into())), Op::Iname(None), Op::Interval(Some(500)), Op::Interval(None), Op::Interval(Some(65535)), Op::Interval(Some(65001)), Op::Interval(Some(65536)), Op::Interval(Some(u64::MAX))];
     for i in 0..10 { v.push(Op::Flag(i, true)); } for i in [0usize, 1, 5, 9] { v.push(Op::Flag(i, false)); }
+    v.push(Op::Other(0)); v.push(Op::Other(2));
     v
 }
 
@@ -147,7 +153,9 @@ pub fn run(a: &Args) {
     // what is actually sent: tcp/udp x local address x mode x blocking/tokio, with a few option sets
     for udp in [false, true] { for local in [false, true] { if !udp && local { continue; } for compressed in [true, false] { for blocking in [true, false] {
         for extra in [vec![], vec![Op::Flag(0, true), Op::Reqi(9), Op::Iname(Some("verif".into())), Op::Admin(Some("pw".into())), Op::Interval(Some(250)), Op::Prefix(Some('!'))],
-                      vec![Op::Relay], vec![Op::Relay, Op::Reqi(3), Op::Udp(Some(40001)), Op::Tcp], vec![Op::Udp(None), Op::Relay, Op::Flag(4, true)]] {
+                      vec![Op::Relay], vec![Op::Relay, Op::Reqi(3), Op::Udp(Some(40001)), Op::Tcp], vec![Op::Udp(None), Op::Relay, Op::Flag(4, true)],
+                      // relay options configured, then the connection is made directly: nothing of them reaches the wire
+                      vec![Op::Other(0)], vec![Op::Relay, Op::Other(0), Op::Other(1), Op::Other(2)], vec![Op::Other(2), Op::Other(3), Op::Other(4), Op::Reqi(1)]] {
             connect_case(udp, local, compressed, blocking, &extra, &mut st);
         }
     } } } }
